@@ -11,9 +11,9 @@
 //! orders as an empty entry).
 //!
 //! Value classes chosen so that coarse comparisons cannot hide: the three exchange instants are
-//! +1 s, +1 s + 1 µs and +2.5 s (a guard that compares at second or millisecond resolution sees the first
-//! two as equal), the order quantity is 1 with fill levels 0, 0.6 and 1 (a remaining quantity of 0.4 is
-//! not "nothing left"). Failed cancels / failed opens come in two classes (rejected by the venue, and a
+//! +1 s, +1 s + 1 ns and +2.5 s (a guard that compares at second, milli- or microsecond resolution sees the
+//! first two as equal), the order quantity is 1 with fill levels 0, 0.6 / 0.999999999999 and 1 (a remaining
+//! quantity of 0.4 or 1e-12 is not "nothing left"). Failed cancels / failed opens come in two classes (rejected by the venue, and a
 //! connectivity error such as a timeout); cancel requests with and without the exchange order id; the
 //! batch forms `record_in_flight_opens / _cancels` (what the engine itself calls) with two requests in
 //! both orders.
@@ -29,6 +29,15 @@
 //! Snap(OpenFailed), CancelOk, CancelErr; layer (b) adds full account snapshots carrying one or two
 //! order reports. Every input is offered in every state, so duplicates, stale and out-of-order
 //! deliveries are all explored.
+//!
+//! Second hardening round: the second exchange instant is +1 s + 1 ns (guards compared at micro- / millisecond
+//! resolution); the partial fill of odd cids leaves 1e-12 to fill ("nothing left" is exact); cancel confirmations
+//! stamped older than the held open data; failed opens / cancels with every `ConnectivityError` / `ApiError`
+//! variant; in the engine-spread and engine-process models order c2 carries the SAME client order id string as c0
+//! on another instrument (ids are unique per instrument table); odd cids are market / immediate-or-cancel orders;
+//! a long-input layer (see `long_layer`) with up to
+//! 1100 (thorough 4200) concurrent orders, batches and full snapshots of every size up to 130 and around powers
+//! of two / ten.
 //!
 //! Oracle: allowed-successor sets per (tracked state, input) written from the statement (R1..R6 of
 //! DESIGN.md §3 C01). The reference state is the projection of the implementation state, so a
@@ -70,11 +79,11 @@ use serde_json::{Value, json};
 
 const QTY: u8 = 2; // fill LEVELS 0,1,2 (2 = nothing left to fill); see `fill_of`
 
-/// exchange instant of time index t in {1,2,3}: +1 s, +1 s + 1 µs, +2.5 s
+/// exchange instant of time index t in {1,2,3}: +1 s, +1 s + 1 ns, +2.5 s
 fn time_of(t: u8) -> chrono::DateTime<chrono::Utc> {
     match t {
         1 => t_plus(1),
-        2 => t_plus(1) + chrono::TimeDelta::microseconds(1),
+        2 => t_plus(1) + chrono::TimeDelta::nanoseconds(1),
         3 => t_plus_ms(2500),
         _ => unreachable!("time index"),
     }
@@ -83,20 +92,23 @@ fn time_of(t: u8) -> chrono::DateTime<chrono::Utc> {
 fn time_index(d: chrono::DateTime<chrono::Utc>) -> u8 {
     (1..=3u8).find(|t| time_of(*t) == d).unwrap_or(0)
 }
-/// order quantity 1; filled quantity of fill level f: 0, 0.6, 1
+/// order quantity 1; filled quantity of fill level f: 0, a partial fill, 1. The partial fill is 0.6 for
+/// even cids and 0.999999999999 for odd ones (a remaining quantity of 1e-12 is still something left to
+/// fill: "nothing left" is an exact statement, not one up to rounding)
 fn qty() -> Decimal {
     Decimal::ONE
 }
-fn fill_of(f: u8) -> Decimal {
+fn fill_of(c: usize, f: u8) -> Decimal {
     match f {
         0 => Decimal::ZERO,
-        1 => Decimal::new(6, 1),
+        1 if c % 2 == 0 => Decimal::new(6, 1),
+        1 => Decimal::new(999_999_999_999, 12),
         _ => Decimal::ONE,
     }
 }
 /// inverse of `fill_of` (255 = not a fill level of the alphabet)
-fn fill_index(d: Decimal) -> u8 {
-    (0..=QTY).find(|f| fill_of(*f) == d).unwrap_or(255)
+fn fill_index(c: usize, d: Decimal) -> u8 {
+    (0..=QTY).find(|f| fill_of(c, *f) == d).unwrap_or(255)
 }
 
 #[derive(Debug, Clone, Copy, PartialEq, Eq, Hash, Serialize, Deserialize)]
@@ -134,6 +146,8 @@ pub enum Rep {
     OpenFailedTimeout,
     /// open failed with an API error other than a rejection (rate limit)
     OpenFailedRateLimit,
+    /// open failed with error class k of `err_class`
+    OpenFailedClass(u8),
 }
 
 #[derive(Debug, Clone, PartialEq, Eq, Hash, Serialize, Deserialize)]
@@ -155,6 +169,11 @@ pub enum Act {
     OpenSentMany(Vec<usize>),
     /// `record_in_flight_cancels` with these requests, in this order
     CancelSentMany(Vec<usize>),
+    /// cancel confirmed, the confirmation stamped with the EARLIEST exchange instant (older than any open
+    /// data held from instants 2, 3: a late confirmation is still a confirmation)
+    CancelOkOld(usize),
+    /// cancel failed with error class k of `err_class`
+    CancelErrClass(usize, u8),
 }
 
 #[derive(Clone, Copy, PartialEq, Eq)]
@@ -169,9 +188,15 @@ pub struct M {
     spread: bool,
     /// engine layer only: Some(trading state) = inputs go through `Engine::process`
     process: Option<TradingState>,
+    /// engine layer only: order c2 (instrument 2, exchange 1) carries the SAME client order id string as
+    /// order c0 (client order ids are unique per instrument table, `Orders` docs; an order is identified by
+    /// instrument + cid, and "reports about one order never change another")
+    shared_cid: bool,
     n_cids: usize,
     timelines: Vec<Vec<[u8; 3]>>, // initial configurations (one timeline per cid)
     instruments: IndexedInstruments,
+    /// client order id string -> orders carrying it (see `shared_cid`)
+    by_cid: std::collections::HashMap<ClientOrderId, Vec<usize>>,
 }
 
 fn all_timelines() -> Vec<[u8; 3]> {
@@ -186,7 +211,7 @@ fn all_timelines() -> Vec<[u8; 3]> {
     v
 }
 
-fn cid(i: usize) -> ClientOrderId {
+fn cid_named(i: usize) -> ClientOrderId {
     ClientOrderId::new(format!("c{i}"))
 }
 fn oid(i: usize) -> OrderId {
@@ -214,7 +239,17 @@ impl M {
             .add_instrument(spot(EXCHANGES[0], "x0_eth_usdt", "ETHUSDT", "eth", "usdt"))
             .add_instrument(spot(EXCHANGES[1], "x1_btc_usdt", "XBT/USDT", "btc", "usdt"))
             .build();
-        Self { layer, spread: false, process: None, n_cids, timelines: cfgs, instruments }
+        let mut m = Self { layer, spread: false, process: None, shared_cid: false, n_cids, timelines: cfgs, instruments, by_cid: Default::default() };
+        m.index_cids();
+        m
+    }
+
+    fn index_cids(&mut self) {
+        self.by_cid.clear();
+        for c in 0..self.n_cids {
+            let id = self.cid(c);
+            self.by_cid.entry(id).or_default().push(c);
+        }
     }
 
     pub fn process(mut self, trading: TradingState) -> Self {
@@ -225,6 +260,18 @@ impl M {
     pub fn spread(mut self) -> Self {
         self.spread = true;
         self
+    }
+
+    pub fn shared_cid(mut self) -> Self {
+        assert!(self.layer == Layer::Engine);
+        self.shared_cid = true;
+        self.index_cids();
+        self
+    }
+
+    /// client order id string of order c
+    fn cid(&self, c: usize) -> ClientOrderId {
+        if self.shared_cid && c == 2 { cid_named(0) } else { cid_named(c) }
     }
 
     /// (exchange, instrument) a cid lives on
@@ -244,7 +291,7 @@ impl M {
 
     fn key(&self, c: usize) -> OrderKey {
         let (exchange, instrument) = self.home(c);
-        OrderKey { exchange, instrument, strategy: strategy_id(), cid: cid(c) }
+        OrderKey { exchange, instrument, strategy: strategy_id(), cid: self.cid(c) }
     }
 
     fn side(c: usize) -> Side {
@@ -253,9 +300,18 @@ impl M {
     fn price(c: usize) -> Decimal {
         Decimal::from(100 + c as i64)
     }
+    /// even cids are resting limit orders (good until cancelled), odd cids market orders that are immediate or
+    /// cancel: the lifecycle of the statement does not depend on the order's terms (an IOC order the exchange
+    /// reports open and partially filled is still tracked until one of the listed reports arrives)
+    fn kind(c: usize) -> OrderKind {
+        if c % 2 == 0 { OrderKind::Limit } else { OrderKind::Market }
+    }
+    fn tif(c: usize) -> TimeInForce {
+        if c % 2 == 0 { TimeInForce::GoodUntilCancelled { post_only: false } } else { TimeInForce::ImmediateOrCancel }
+    }
 
     fn open_meta(&self, c: usize, t: u8, f: u8) -> Open {
-        Open { id: oid(c), time_exchange: time_of(t), filled_quantity: fill_of(f) }
+        Open { id: oid(c), time_exchange: time_of(t), filled_quantity: fill_of(c, f) }
     }
 
     fn active_order(&self, c: usize, p: &Proj) -> Order<ExchangeIndex, InstrumentIndex, ActiveOrderState> {
@@ -272,8 +328,8 @@ impl M {
             side: Self::side(c),
             price: Self::price(c),
             quantity: qty(),
-            kind: OrderKind::Limit,
-            time_in_force: TimeInForce::GoodUntilCancelled { post_only: false },
+            kind: Self::kind(c),
+            time_in_force: Self::tif(c),
             state,
         }
     }
@@ -291,14 +347,15 @@ impl M {
             Rep::OpenFailed => OrderState::inactive(OrderError::Rejected(ApiError::OrderRejected("script".into()))),
             Rep::OpenFailedTimeout => OrderState::inactive(OrderError::Connectivity(ConnectivityError::Timeout)),
             Rep::OpenFailedRateLimit => OrderState::inactive(OrderError::Rejected(ApiError::RateLimit)),
+            Rep::OpenFailedClass(k) => OrderState::inactive(err_class(k).0),
         };
         Order {
             key: self.key(c),
             side: Self::side(c),
             price: Self::price(c),
             quantity: qty(),
-            kind: OrderKind::Limit,
-            time_in_force: TimeInForce::GoodUntilCancelled { post_only: false },
+            kind: Self::kind(c),
+            time_in_force: Self::tif(c),
             state,
         }
     }
@@ -310,8 +367,8 @@ impl M {
                 side: Self::side(c),
                 price: Self::price(c),
                 quantity: qty(),
-                kind: OrderKind::Limit,
-                time_in_force: TimeInForce::GoodUntilCancelled { post_only: false },
+                kind: Self::kind(c),
+                time_in_force: Self::tif(c),
             },
         }
     }
@@ -333,11 +390,14 @@ impl M {
             },
         }
     }
+    fn cancel_response_old(&self, c: usize) -> OrderResponseCancel {
+        OrderResponseCancel { key: self.key(c), state: Ok(Cancelled { id: oid(c), time_exchange: time_of(1) }) }
+    }
 
     /// project one real tracked order; also says whether its static fields are intact
     fn project(&self, c: usize, o: &Order<ExchangeIndex, InstrumentIndex, ActiveOrderState>) -> (Proj, bool) {
         let meta_of = |open: &Open| -> (u8, u8) {
-            (time_index(open.time_exchange), fill_index(open.filled_quantity))
+            (time_index(open.time_exchange), fill_index(c, open.filled_quantity))
         };
         let (proj, id_ok) = match &o.state {
             ActiveOrderState::OpenInFlight(_) => (Proj { kind: Kind::InFlight, meta: None }, true),
@@ -352,13 +412,18 @@ impl M {
             && o.side == Self::side(c)
             && o.price == Self::price(c)
             && o.quantity == qty()
-            && o.kind == OrderKind::Limit
-            && o.time_in_force == TimeInForce::GoodUntilCancelled { post_only: false };
+            && o.kind == Self::kind(c)
+            && o.time_in_force == Self::tif(c);
         (proj, intact)
     }
 
-    fn cid_index(&self, id: &ClientOrderId) -> Option<usize> {
-        (0..self.n_cids).find(|c| cid(*c) == *id)
+    /// the order with this client order id living on instrument `inst`; Err(true) = the id is known but on
+    /// another instrument, Err(false) = unknown id
+    fn cid_index(&self, id: &ClientOrderId, inst: InstrumentIndex) -> Result<usize, bool> {
+        match self.by_cid.get(id) {
+            None => Err(false),
+            Some(cs) => cs.iter().copied().find(|c| self.home(*c).1 == inst).ok_or(true),
+        }
     }
 
     /// Execute `a` on the real implementation rebuilt from `s`; return the per-cid projection after,
@@ -371,7 +436,7 @@ impl M {
                 let mut orders: Orders = Orders::default();
                 for (c, p) in s.orders.iter().enumerate() {
                     if let Some(p) = p {
-                        orders.0.insert(cid(c), self.active_order(c, p));
+                        orders.0.insert(self.cid(c), self.active_order(c, p));
                     }
                 }
                 match a {
@@ -387,6 +452,8 @@ impl M {
                     Act::CancelSentWithId(c) => orders.record_in_flight_cancel(&self.request_cancel_with_id(*c)),
                     Act::CancelErrTimeout(c) => orders.update_from_cancel_response::<AssetIndex>(&self.cancel_response_with(*c, Some(err_timeout()))),
                     Act::CancelErrRateLimit(c) => orders.update_from_cancel_response::<AssetIndex>(&self.cancel_response_with(*c, Some(err_rate_limit()))),
+                    Act::CancelOkOld(c) => orders.update_from_cancel_response::<AssetIndex>(&self.cancel_response_old(*c)),
+                    Act::CancelErrClass(c, k) => orders.update_from_cancel_response::<AssetIndex>(&self.cancel_response_with(*c, Some(err_class(*k).0))),
                     Act::OpenSentMany(cs) => {
                         let reqs: Vec<_> = cs.iter().map(|c| self.request_open(*c)).collect();
                         orders.record_in_flight_opens(&reqs)
@@ -397,8 +464,8 @@ impl M {
                     }
                 }
                 for (k, o) in orders.0.iter() {
-                    match self.cid_index(k) {
-                        Some(c) if o.key.cid == *k => {
+                    match self.cid_index(k, InstrumentIndex(1)) {
+                        Ok(c) if o.key.cid == *k => {
                             let (p, intact) = self.project(c, o);
                             if !intact {
                                 complaints.push("static-fields-changed".into());
@@ -421,7 +488,7 @@ impl M {
                 for (c, p) in s.orders.iter().enumerate() {
                     if let Some(p) = p {
                         let (_, inst) = self.home(c);
-                        state.instruments.instrument_index_mut(&inst).orders.0.insert(cid(c), self.active_order(c, p));
+                        state.instruments.instrument_index_mut(&inst).orders.0.insert(self.cid(c), self.active_order(c, p));
                     }
                 }
                 // entry point: the engine state's own methods, or the engine's (`Engine::process`)
@@ -456,6 +523,12 @@ impl M {
                     }
                     Act::CancelErrRateLimit(c) => {
                         ep.account(ev(*c, AccountEventKind::OrderCancelled(self.cancel_response_with(*c, Some(err_rate_limit())))));
+                    }
+                    Act::CancelOkOld(c) => {
+                        ep.account(ev(*c, AccountEventKind::OrderCancelled(self.cancel_response_old(*c))));
+                    }
+                    Act::CancelErrClass(c, k) => {
+                        ep.account(ev(*c, AccountEventKind::OrderCancelled(self.cancel_response_with(*c, Some(err_class(*k).0)))));
                     }
                     Act::OpenSentMany(cs) => {
                         ep.open(cs.iter().map(|c| self.request_open(*c)).collect(), true)
@@ -498,12 +571,9 @@ impl M {
                 }
                 for (i, (_, inst_state)) in ep.state().instruments.0.iter().enumerate() {
                     for (k, o) in inst_state.orders.0.iter() {
-                        match self.cid_index(k) {
-                            Some(c) if o.key.cid == *k => {
-                                if self.home(c).1 != InstrumentIndex(i) {
-                                    complaints.push("order-tracked-under-wrong-instrument".into());
-                                    continue;
-                                }
+                        match self.cid_index(k, InstrumentIndex(i)) {
+                            Err(true) => complaints.push("order-tracked-under-wrong-instrument".into()),
+                            Ok(c) if o.key.cid == *k => {
                                 let (p, intact) = self.project(c, o);
                                 if !intact {
                                     complaints.push("static-fields-changed".into());
@@ -571,6 +641,18 @@ fn err_timeout() -> OrderError {
 fn err_rate_limit() -> OrderError {
     OrderError::Rejected(ApiError::RateLimit)
 }
+/// further error classes a failed open / failed cancel may carry (every variant of `ConnectivityError` and
+/// `ApiError` except 'already cancelled' / 'already fully filled', see `assumptions`)
+const ERR_CLASSES: u8 = 5;
+fn err_class(k: u8) -> (OrderError, &'static str) {
+    match k {
+        0 => (OrderError::Connectivity(ConnectivityError::ExchangeOffline(EXCHANGES[0])), "exchange-offline"),
+        1 => (OrderError::Connectivity(ConnectivityError::Socket("script".into())), "socket"),
+        2 => (OrderError::Rejected(ApiError::BalanceInsufficient(AssetIndex(0), "script".into())), "balance-insufficient"),
+        3 => (OrderError::Rejected(ApiError::InstrumentInvalid(InstrumentIndex(0), "script".into())), "instrument-invalid"),
+        _ => (OrderError::Rejected(ApiError::AssetInvalid(AssetIndex(0), "script".into())), "asset-invalid"),
+    }
+}
 
 fn kind_name(p: &Option<Proj>) -> &'static str {
     match p {
@@ -588,6 +670,7 @@ fn input_name(i: &In, cfg_c: &[u8; 3], prev: &Option<Proj>) -> String {
         In::OpenSent => "OpenSent".into(),
         In::CancelSent => "CancelSent".into(),
         In::CancelOk => "CancelOk".into(),
+        In::CancelOkOld => "CancelOk(stamped-earliest)".into(),
         In::CancelErr => "CancelErr".into(),
         In::CancelSentWithId => "CancelSent(with-order-id)".into(),
         In::CancelErrOther(class) => format!("CancelErr({class})"),
@@ -622,6 +705,7 @@ fn input_name(i: &In, cfg_c: &[u8; 3], prev: &Option<Proj>) -> String {
         In::Rep(Rep::OpenFailed) => "Snap(OpenFailed)".into(),
         In::Rep(Rep::OpenFailedTimeout) => "Snap(OpenFailed,connectivity)".into(),
         In::Rep(Rep::OpenFailedRateLimit) => "Snap(OpenFailed,rate-limit)".into(),
+        In::Rep(Rep::OpenFailedClass(k)) => format!("Snap(OpenFailed,{})", err_class(*k).1),
     }
 }
 
@@ -631,6 +715,8 @@ enum In {
     CancelSent,
     Rep(Rep),
     CancelOk,
+    /// a cancel confirmation stamped older than the held data (same rule R2 as `CancelOk`)
+    CancelOkOld,
     CancelErr,
     CancelSentWithId,
     /// a failed cancel of another error class (same rule R3 as `CancelErr`)
@@ -701,11 +787,11 @@ fn allowed(prev: &Option<Proj>, input: &In, cfg_c: &[u8; 3]) -> (&'static str, V
             }
         }
         // R2: cancelled / fully filled / expired / failed report untracks
-        In::Rep(Rep::Cancelled(_)) | In::Rep(Rep::FullyFilled) | In::Rep(Rep::Expired) | In::Rep(Rep::OpenFailed) | In::Rep(Rep::OpenFailedTimeout) | In::Rep(Rep::OpenFailedRateLimit) => {
+        In::Rep(Rep::Cancelled(_)) | In::Rep(Rep::FullyFilled) | In::Rep(Rep::Expired) | In::Rep(Rep::OpenFailed) | In::Rep(Rep::OpenFailedTimeout) | In::Rep(Rep::OpenFailedRateLimit) | In::Rep(Rep::OpenFailedClass(_)) => {
             ("R2-terminal-report-untracks", vec![None])
         }
         // R2: a confirmed cancel untracks
-        In::CancelOk => ("R2-cancel-confirmation-untracks", vec![None]),
+        In::CancelOk | In::CancelOkOld => ("R2-cancel-confirmation-untracks", vec![None]),
         // R3: a failed cancel restores the last exchange-confirmed open state
         In::CancelErr | In::CancelErrOther(_) => match prev {
             Some(Proj { kind: Kind::Cancelling, meta: Some(m) }) => ("R3-failed-cancel-restores-confirmed-open", vec![some(Kind::Open, Some(*m))]),
@@ -753,6 +839,11 @@ impl Model for M {
             v.push(Act::Snap(c, Rep::OpenFailedRateLimit));
             v.push(Act::CancelErrTimeout(c));
             v.push(Act::CancelErrRateLimit(c));
+            v.push(Act::CancelOkOld(c));
+            for k in 0..ERR_CLASSES {
+                v.push(Act::Snap(c, Rep::OpenFailedClass(k)));
+                v.push(Act::CancelErrClass(c, k));
+            }
         }
         // the batch recorders, two requests in both orders
         for c1 in 0..self.n_cids {
@@ -798,7 +889,7 @@ impl Model for M {
                 Act::OpenSent(_) | Act::OpenSentMany(_) => "open-sent",
                 Act::CancelSent(_) | Act::CancelSentWithId(_) | Act::CancelSentMany(_) => "cancel-sent",
                 Act::Snap(..) => "order-snapshot",
-                Act::CancelOk(_) | Act::CancelErr(_) | Act::CancelErrTimeout(_) | Act::CancelErrRateLimit(_) => "cancel-response",
+                Act::CancelOk(_) | Act::CancelErr(_) | Act::CancelErrTimeout(_) | Act::CancelErrRateLimit(_) | Act::CancelOkOld(_) | Act::CancelErrClass(..) => "cancel-response",
                 Act::Full(_) => "full-snapshot",
             };
             out.push((format!("C01/{layer}/panic/{kind}"), format!("state={:?} action={a:?}: the code under test panicked", s.orders)));
@@ -818,6 +909,8 @@ impl Model for M {
             Act::CancelSentWithId(c) => vec![(*c, In::CancelSentWithId)],
             Act::CancelErrTimeout(c) => vec![(*c, In::CancelErrOther("connectivity"))],
             Act::CancelErrRateLimit(c) => vec![(*c, In::CancelErrOther("rate-limit"))],
+            Act::CancelOkOld(c) => vec![(*c, In::CancelOkOld)],
+            Act::CancelErrClass(c, k) => vec![(*c, In::CancelErrOther(err_class(*k).1))],
             Act::OpenSentMany(cs) => cs.iter().map(|c| (*c, In::OpenSent)).collect(),
             Act::CancelSentMany(cs) => cs.iter().map(|c| (*c, In::CancelSent)).collect(),
         };
@@ -826,9 +919,13 @@ impl Model for M {
             Act::OpenSentMany(_) | Act::CancelSentMany(_) => "batch",
             _ => "single",
         };
+        let mut input_of: Vec<Option<&In>> = vec![None; self.n_cids];
+        for (ic, input) in inputs.iter().rev() {
+            input_of[*ic] = Some(input); // the first entry for a cid wins, as before
+        }
         for c in 0..self.n_cids {
-            match inputs.iter().find(|(ic, _)| *ic == c) {
-                Some((_, input)) => {
+            match input_of[c] {
+                Some(input) => {
                     let (rule, allow) = allowed(&s.orders[c], input, &s.cfg[c]);
                     if !allow.contains(&after[c]) {
                         let how = match (&after[c], allow.first()) {
@@ -885,26 +982,201 @@ fn models(ctx: &Ctx) -> Vec<(String, M, Option<usize>)> {
     match ctx.tier {
         crate::core::Tier::Quick => {
             v.push(("engine/3cids/rep-timelines".to_string(), M::new(Layer::Engine, &[all.clone(), few.clone(), two.clone()]), None));
-            v.push(("engine-spread/3cids/few-timelines".to_string(), M::new(Layer::Engine, &[few.clone(), few.clone(), two.clone()]).spread(), None));
-            v.push(("engine-process/trading=disabled/3cids/two-timelines".to_string(), M::new(Layer::Engine, &[few.clone(), two.clone(), two.clone()]).process(TradingState::Disabled), None));
+            v.push(("engine-spread/3cids/few-timelines".to_string(), M::new(Layer::Engine, &[few.clone(), few.clone(), two.clone()]).spread().shared_cid(), None));
+            v.push(("engine-process/trading=disabled/3cids/two-timelines".to_string(), M::new(Layer::Engine, &[few.clone(), two.clone(), two.clone()]).process(TradingState::Disabled).shared_cid(), None));
         }
         crate::core::Tier::Thorough => {
             v.push(("orders/3cids/rep-timelines".to_string(), M::new(Layer::Orders, &[all.clone(), few.clone(), few.clone()]), None));
             v.push(("engine/3cids/all-timelines".to_string(), M::new(Layer::Engine, &[all.clone(), all.clone(), all.clone()]), None));
-            v.push(("engine-spread/3cids/rep-timelines".to_string(), M::new(Layer::Engine, &[all.clone(), few.clone(), few.clone()]).spread(), None));
-            v.push(("engine-process/trading=disabled/3cids/rep-timelines".to_string(), M::new(Layer::Engine, &[all.clone(), few.clone(), two.clone()]).process(TradingState::Disabled), None));
-            v.push(("engine-process/trading=enabled/spread/3cids/few-timelines".to_string(), M::new(Layer::Engine, &[few.clone(), few.clone(), two.clone()]).spread().process(TradingState::Enabled), None));
+            v.push(("engine-spread/3cids/rep-timelines".to_string(), M::new(Layer::Engine, &[all.clone(), few.clone(), few.clone()]).spread().shared_cid(), None));
+            v.push(("engine-process/trading=disabled/3cids/rep-timelines".to_string(), M::new(Layer::Engine, &[all.clone(), few.clone(), two.clone()]).process(TradingState::Disabled).shared_cid(), None));
+            v.push(("engine-process/trading=enabled/spread/3cids/few-timelines".to_string(), M::new(Layer::Engine, &[few.clone(), few.clone(), two.clone()]).spread().process(TradingState::Enabled).shared_cid(), None));
         }
     }
     v
+}
+
+// ------------------------------------------------------------------------------------------------
+// long-input layer: MANY concurrent orders in one table
+// ------------------------------------------------------------------------------------------------
+//
+// The statement quantifies over "several concurrent order ids" without a bound; the BFS models hold at most
+// three. This layer walks the SAME model (same `step`, same oracle) with hundreds / thousands of orders along
+// scripted paths, so that a table size, a batch length or a snapshot length at which tracking silently
+// stops (a cap, a page size, a fixed-size buffer) is reached:
+//  * grow-and-shrink: OpenSent(c) for c = 0..n (every table size 1..=n is passed; each new order is then left in
+//    flight / confirmed open / confirmed + cancel requested / cancel requested, by c mod 4), a failed cancel
+//    for every order of the third kind (all restored to their open data), then one terminal input per order
+//    (cancelled / fully filled / expired / failed / cancel confirmed / open with nothing left, by c mod 6)
+//    until the table is empty - after every step ALL n entries are compared (R5);
+//  * batches: for every k of `batch_sizes` from the empty table: `record_in_flight_opens` of k requests, a full
+//    account snapshot reporting all k open (engine layers), `record_in_flight_cancels` of k requests, a full
+//    snapshot reporting all k fully filled (engine layers; single reports on the `Orders` layer).
+// In the engine layers orders 0,1 live on instrument 1 and all others on instrument 2.
+
+fn long_n(tier: crate::core::Tier) -> usize {
+    tier.pick(1100, 4200)
+}
+
+fn long_models(tier: crate::core::Tier) -> Vec<(String, M)> {
+    let n = long_n(tier);
+    let tl = vec![vec![[0u8, 1, 2]]; n];
+    vec![
+        (format!("long/orders/{n}cids"), M::new(Layer::Orders, &tl)),
+        (format!("long/engine/{n}cids"), M::new(Layer::Engine, &tl)),
+        (format!("long/engine-process/trading=disabled/{n}cids"), M::new(Layer::Engine, &tl).process(TradingState::Disabled)),
+    ]
+}
+
+/// every k <= 130, then k around every power of two and of ten up to n, and n itself
+fn batch_sizes(n: usize) -> Vec<usize> {
+    let mut v: Vec<usize> = (1..=130.min(n)).collect();
+    let mut p = 256usize;
+    while p <= n + 1 {
+        v.extend([p - 1, p, p + 1]);
+        p *= 2;
+    }
+    let mut p = 1000usize;
+    while p <= n + 1 {
+        v.extend([p - 1, p, p + 1]);
+        p *= 10;
+    }
+    v.push(n);
+    v.retain(|k| *k >= 1 && *k <= n);
+    v.sort();
+    v.dedup();
+    v
+}
+
+fn long_paths(m: &M) -> Vec<Vec<Act>> {
+    let n = m.n_cids;
+    let mut paths = Vec::new();
+    // grow and shrink
+    let mut p = Vec::new();
+    for c in 0..n {
+        p.push(Act::OpenSent(c));
+        match c % 4 {
+            1 => p.push(Act::Snap(c, Rep::Open(1))),
+            2 => {
+                p.push(Act::Snap(c, Rep::Open(1)));
+                p.push(Act::CancelSent(c));
+            }
+            3 => p.push(Act::CancelSent(c)),
+            _ => {}
+        }
+    }
+    for c in (0..n).filter(|c| c % 4 == 2) {
+        p.push(Act::CancelErr(c));
+    }
+    for c in 0..n {
+        p.push(match c % 6 {
+            0 => Act::Snap(c, Rep::Cancelled(3)),
+            1 => Act::Snap(c, Rep::FullyFilled),
+            2 => Act::Snap(c, Rep::Expired),
+            3 => Act::Snap(c, Rep::OpenFailed),
+            4 => Act::CancelOk(c),
+            _ => Act::Snap(c, Rep::Open(3)), // timeline [0,1,2]: nothing left to fill at instant 3
+        });
+    }
+    paths.push(p);
+    // batches
+    for k in batch_sizes(n) {
+        let all: Vec<usize> = (0..k).collect();
+        let mut p = vec![Act::OpenSentMany(all.clone())];
+        if m.layer == Layer::Engine {
+            p.push(Act::Full(all.iter().map(|c| (*c, Rep::Open(1))).collect()));
+        }
+        p.push(Act::CancelSentMany(all.clone()));
+        if m.layer == Layer::Engine {
+            p.push(Act::Full(all.iter().map(|c| (*c, Rep::FullyFilled)).collect()));
+        }
+        paths.push(p);
+    }
+    paths
+}
+
+/// Walk every path of every long model; returns (per-model evidence, total steps).
+fn long_layer(ctx: &Ctx) -> (Vec<Value>, u64) {
+    use rayon::prelude::*;
+    let mut parts = Vec::new();
+    let mut total = 0u64;
+    let models = long_models(ctx.tier);
+    let all_paths: Vec<Vec<Vec<Act>>> = models.iter().map(|(_, m)| long_paths(m)).collect();
+    // every path of every model on its own (deterministic: results are merged in model / path order);
+    // the long grow-and-shrink paths are scheduled first
+    let mut jobs: Vec<(usize, usize)> = Vec::new();
+    for (mi, ps) in all_paths.iter().enumerate() {
+        for pi in 0..ps.len() {
+            jobs.push((mi, pi));
+        }
+    }
+    jobs.sort_by_key(|(mi, pi)| (std::cmp::Reverse(all_paths[*mi][*pi].len()), *mi, *pi));
+    let mut done: std::collections::HashMap<(usize, usize), (u64, usize, Vec<(String, String, usize)>)> = jobs
+        .par_iter()
+        .map(|(mi, pi)| {
+            let m = &models[*mi].1;
+            let path = &all_paths[*mi][*pi];
+            ((*mi, *pi), {
+                let mut s = m.init().remove(0);
+                let (mut steps, mut peak, mut viols) = (0u64, 0usize, Vec::new());
+                for (i, a) in path.iter().enumerate() {
+                    let mut out = Vec::new();
+                    let next = m.step(&s, a, &mut out);
+                    steps += 1;
+                    for (sig, detail) in out {
+                        viols.push((sig, detail, i));
+                    }
+                    match next {
+                        Some(ns) => s = ns,
+                        None => break,
+                    }
+                    peak = peak.max(s.orders.iter().filter(|o| o.is_some()).count());
+                }
+                (steps, peak, viols)
+            })
+        })
+        .collect();
+    for (mi, (label, m)) in models.iter().enumerate() {
+        let paths = &all_paths[mi];
+        let results: Vec<_> = (0..paths.len()).map(|pi| done.remove(&(mi, pi)).unwrap()).collect();
+        let mut seen = std::collections::HashSet::new();
+        let (mut steps, mut peak) = (0u64, 0usize);
+        for (path, (st, pk, viols)) in paths.iter().zip(results) {
+            steps += st;
+            peak = peak.max(pk);
+            for (sig, detail, i) in viols {
+                if seen.insert(sig.clone()) {
+                    ctx.violate(sig, detail, json!({"engine": "bfs", "label": label, "init": 0, "path": &path[..=i]}));
+                } else {
+                    ctx.violations.bump(&sig);
+                }
+            }
+        }
+        if peak != m.n_cids {
+            // on a tree where the property holds the table reaches n entries; fewer on a clean run = harness defect
+            if seen.is_empty() {
+                eprintln!("MACHINERY: C01 {label}: peak table size {peak} != {}", m.n_cids);
+                std::process::exit(2);
+            }
+        }
+        total += steps;
+        parts.push(json!({"model": label, "orders": m.n_cids, "paths": paths.len(), "steps": steps, "peak_tracked_orders": peak,
+            "batch_sizes": batch_sizes(m.n_cids).len(), "largest_batch": m.n_cids}));
+    }
+    (parts, total)
 }
 
 pub fn run(ctx: &Ctx) -> Outcome {
     let mut parts = Vec::new();
     let (mut states, mut transitions, mut max_depth, mut impl_states) = (0usize, 0u64, 0usize, 0usize);
     let mut samples = Vec::new();
-    for (label, m, depth) in models(ctx) {
-        let st = bfs::run(ctx, &m, &label, depth, 20_000_000);
+    // the long-input layer (dominated by one sequential path per model) runs beside the BFS models; the
+    // collector keeps the smallest case per signature, so the outcome does not depend on the interleaving
+    let (bfs_stats, (long_parts, long_steps)) = rayon::join(
+        || models(ctx).into_iter().map(|(label, m, depth)| { let st = bfs::run(ctx, &m, &label, depth, 20_000_000); (label, m, st) }).collect::<Vec<_>>(),
+        || long_layer(ctx),
+    );
+    for (label, m, st) in bfs_stats {
         if !st.fixpoint {
             eprintln!("MACHINERY: C01 BFS {label} did not reach its fixpoint (capped={})", st.capped);
             std::process::exit(2);
@@ -929,13 +1201,19 @@ pub fn run(ctx: &Ctx) -> Outcome {
             "exhaustive": true,
             "distinct_impl_states": impl_states,
             "models": parts,
+            "long_input_layer": {"steps_validated_against_impl": long_steps, "models": long_parts,
+                "rule": "the same model / oracle walked along scripted paths with n concurrent orders: grow one order at a time to n (every table size), mixed lifecycle states, failed cancels, one terminal input per order; batch recorders and full snapshots of every size k <= 130 and around powers of two / ten up to n; all n entries compared after every step"},
             "samples": samples,
             "rule": "BFS to fixpoint; every transition rebuilds the real Orders / EngineState from the canonical snapshot, applies one input through the public API and compares the per-cid projection with the allowed-successor set of the statement; all inputs offered in every state",
         }),
         assumptions: vec![
             "client order ids are unique per order (OpenSent only offered while the id is untracked)".into(),
-            "exchange reports of one order follow a consistent timeline: fill level non-decreasing in exchange time (all 10 timelines over three instants +1 s, +1 s + 1 us, +2.5 s; filled quantity in {0, 0.6, 1} of quantity 1); any report may be delivered late, repeatedly, out of order".into(),
-            "failed cancels / failed opens are offered in the classes venue rejection, rate limit and connectivity timeout; the classes 'order already cancelled / already fully filled' are not offered (the statement does not distinguish them, an implementation might reasonably)".into(),
+            "exchange reports of one order follow a consistent timeline: fill level non-decreasing in exchange time (all 10 timelines over three instants +1 s, +1 s + 1 ns, +2.5 s; filled quantity in {0, 0.6 (even ids) / 0.999999999999 (odd ids), 1} of quantity 1); any report may be delivered late, repeatedly, out of order".into(),
+            "failed cancels / failed opens are offered with every ConnectivityError and ApiError variant (timeout, exchange offline, socket; order rejected, rate limit, balance insufficient, instrument / asset invalid) except 'order already cancelled / already fully filled', which are not offered (the statement does not distinguish them, an implementation might reasonably)".into(),
+            "cancel confirmations are offered stamped with the latest and with the earliest exchange instant (a late confirmation is a confirmation)".into(),
+            "even ids are limit / good-until-cancelled orders, odd ids market / immediate-or-cancel orders: the lifecycle does not depend on an order's terms".into(),
+            "long-input layer: up to 1100 (thorough 4200) concurrent orders on scripted paths (not a BFS): every table size, batches / full snapshots of every size <= 130 and around powers of two / ten".into(),
+            "client order ids are unique per instrument: in the engine-spread and engine-process models order c2 (instrument 2, exchange 1) carries the same id string as order c0; an order is identified by instrument + client order id".into(),
             "CancelInFlight order snapshots are in the alphabet with a permissive oracle (order stays tracked, held data never older, nothing else required)".into(),
         ],
     }
@@ -943,6 +1221,18 @@ pub fn run(ctx: &Ctx) -> Outcome {
 
 pub fn replay(ctx: &Ctx, case: &Value) {
     let label = case["label"].as_str().unwrap_or("");
+    if label.starts_with("long/") {
+        for tier in [crate::core::Tier::Quick, crate::core::Tier::Thorough] {
+            for (l, m) in long_models(tier) {
+                if l == label {
+                    for (sig, detail) in bfs::replay(&m, case) {
+                        ctx.violate(sig, detail, case.clone());
+                    }
+                    return;
+                }
+            }
+        }
+    }
     // rebuild the model with the same initial configurations (both tiers' models are tried)
     for tier in [crate::core::Tier::Quick, crate::core::Tier::Thorough] {
         let c2 = Ctx::new(&ctx.prop, tier, ctx.seed);
